@@ -421,6 +421,10 @@ func (t *Tree) CollapseClade(strict bool, name string, tips ...string) (clade *T
 	if n, _, monophyletic, err = t.LeastCommonAncestorRooted(nil, tips...); err != nil {
 		return
 	}
+	if n == nil {
+		err = errors.New("no common ancestor found for the given tips (names must be tip names)")
+		return
+	}
 	if !monophyletic {
 		if strict {
 			err = errors.New("the given outgroup is not monophyletic, cannot reroot")
